@@ -626,7 +626,7 @@ func rsemScenario(c *Ctx, sh *shard, scen int) {
 			c.dist("e2e_external_registered", "writer-metadata")
 		}
 		must(meta.Update(ctx, []bs.WriteOperation{{FileMetadata: fmReg, FilePointerBytes: ptr}}, nil))
-		if c.chance(0.3) { // the engine merges externally written files too
+		if c.chance(0.5) { // the engine merges externally written files too
 			if _, err := eng.Merge(ctx); err != nil {
 				c.violation("e2e-merge-error", "Merge failed over an externally written file: "+err.Error(), nil)
 			} else {
